@@ -65,7 +65,7 @@ class TCPTransport(KNXIPTransport):
             logger.debug("Closing TCP transport. %s", exc)
             self.connection_lost_callback()
 
-    __slots__ = ("_buffer", "_connection_lost_cb", "remote_hpai")
+    __slots__ = ("_buffer", "_connection_lost_cb", "_stop_count", "remote_hpai")
 
     def __init__(
         self,
@@ -80,6 +80,7 @@ class TCPTransport(KNXIPTransport):
         self._connection_lost_cb = connection_lost_cb
         self.transport: asyncio.Transport | None = None
         self._buffer = b""
+        self._stop_count = 0
 
     def data_received_callback(self, raw: bytes) -> None:
         """Parse and process KNXIP frames. Callback for having received data over TCP."""
@@ -149,11 +150,21 @@ class TCPTransport(KNXIPTransport):
             connection_lost_callback=self._connection_lost,
         )
         loop = asyncio.get_running_loop()
+        stop_count = self._stop_count
         (self.transport, _) = await loop.create_connection(
             lambda: tcp_transport_factory,
             host=self.remote_hpai.ip_addr,
             port=self.remote_hpai.port,
         )
+        if self._stop_count != stop_count:
+            # stopped while the connection was established - eg. the user disconnected
+            self.stop()
+            raise CommunicationError("Transport stopped while connecting")
+
+    def stop(self) -> None:
+        """Stop socket."""
+        self._stop_count += 1
+        super().stop()
 
     def _connection_lost(self) -> None:
         """Call assigned callback. Callback for connection lost."""
